@@ -32,6 +32,13 @@ CHECKS = {
   "every law is decided on the observed outputs, and order within a class (and null < bool < numbers < strings) against ref.Cmp. Held on the pools generated.",
   "NaN not generated; number-vs-string order is asserted as observed on the pinned tree (the property leaves it open).",
   "DESIGN.md §5 C15"),
+ "C16": ("exploration",
+  "self-consistency monitor: what path, key, parent, parent|path, keys and to_entries report for every node of `f | ..` is checked against the value f produced",
+  "For 18 deriving functions (identity, sort, sort_by, reverse, unique, slices, map, filter, collect, +, pick, omit, with_entries, *, sort_keys, to_entries, write-back forms) every node must satisfy "
+  "the local, compositional, global (walk the path from the root, paths distinct) and enumeration relations. The recorded-index deviation is excused only when the reported indices equal "
+  "the derivation model's prediction exactly. Held on the cases generated.",
+  "Alias-free JSON-model documents; forms where the value's root is not what f returns (group_by|.[0]) are not generated.",
+  "DESIGN.md §5 C16"),
  "C17": ("exploration",
   "real-consumer monitor: yq's @sh / -o=shell text is executed by dash and bash (strace execve watch + canary) and parsed by an independent POSIX word parser",
   "Each generated hostile string / document goes through the real encoder (library and binary); the shells must see exactly one word / exactly the "
